@@ -54,6 +54,8 @@ pub struct Multi {
     /// accept anything for EVAL replies (C12 judges them)
     pub lenient_eval: bool,
     pub stalled_turns: u32,
+    /// a command whose reply has not arrived yet holds back every command the server read after it (runs with transient I/O outcomes)
+    pub strict_stall: bool,
     /// a mismatch was found in this turn: the rest of the turn's commands are not judged, the model is re-synchronised at the end of the turn
     pub poisoned: bool,
     pub eval_in_turn: bool,
@@ -70,7 +72,7 @@ pub fn upper(a: &[u8]) -> String { String::from_utf8_lossy(a).to_uppercase() }
 impl Multi {
     pub fn new(h: H, prop: &str) -> Multi {
         Multi { h, model: Model::new(), prop: prop.to_string(), cl: BTreeMap::new(), turn_no: 0, block_seq: 0, tag_seq: 0, history: Vec::new(), served: Vec::new(),
-                compare_dumps: true, strict_exec_replies: true, lenient_eval: true, stalled_turns: 0, poisoned: false, eval_in_turn: false, eval_dbs: BTreeSet::new(), scripts: BTreeMap::new(), select_in_exec: false }
+                compare_dumps: true, strict_exec_replies: true, lenient_eval: true, stalled_turns: 0, strict_stall: false, poisoned: false, eval_in_turn: false, eval_dbs: BTreeSet::new(), scripts: BTreeMap::new(), select_in_exec: false }
     }
     pub fn connect(&mut self, c: usize) {
         let sim = self.h.connect(c, self.h.inst, 0);
@@ -87,8 +89,20 @@ impl Multi {
         self.cl.get_mut(&c).unwrap().inflight.push_back(Inflight { args: args.to_vec(), end_off: end, tag });
         tag
     }
+    /// Arm a transient system-call outcome (EINTR, EAGAIN, short transfer) on the server's side of client `c`'s socket.
+    pub fn arm(&mut self, c: usize, fop: crate::world::Op, nth: u64, action: crate::world::Action) {
+        if let Some(cl) = self.cl.get(&c) { if !cl.gone { let (inst, s) = (self.h.inst, cl.sim); self.h.sim.arm(inst, fop, Some(s), None, nth, action); self.h.count("syscall_faults_armed", 1); } }
+    }
     pub fn close(&mut self, c: usize) {
-        if let Some(cl) = self.cl.get_mut(&c) { if !cl.gone { cl.gone = true; let s = cl.sim; self.h.sim.close(s, CloseHow::Close); } }
+        // what a client sent before it closes is still executed by a server that gets round to reading it only
+        // later (a read that was interrupted or came back empty): let it be read first, so that the model sees it
+        for _ in 0..12 {
+            if !self.cl.get(&c).map_or(false, |x| !x.gone && !x.inflight.is_empty() && x.blocked.is_none()) { break; }
+            if !matches!(self.turn(), TurnOutcome::Turn { .. }) { break; }
+        }
+        // (a transient failure of the server's look at the socket would legitimately hide the closure for one more turn,
+        // in which an element may be handed to the vanished client, as over real TCP: no such outcome is left armed here)
+        if let Some(cl) = self.cl.get_mut(&c) { if !cl.gone { cl.gone = true; let s = cl.sim; self.h.sim.disarm_conn(s); self.h.sim.close(s, CloseHow::Close); } }
     }
 
     /// One server turn, then feed everything the server executed in it to the model, in execution order.
@@ -149,7 +163,7 @@ impl Multi {
         for (_, _, c) in ready {
             if stalled_clients.contains(&c) { continue; }
             let inf = self.cl[&c].inflight.front().cloned().unwrap();
-            if !self.execute(c, &inf) { stalled = true; stalled_clients.insert(c); /* its reply has not arrived yet: later commands of this client wait */ }
+            if !self.execute(c, &inf) { stalled = true; stalled_clients.insert(c); /* its reply has not arrived yet: later commands of this client wait */ if self.strict_stall { break; /* ... and so does everything the server ran after it */ } }
         }
         if stalled { self.stalled_turns += 1; } else { self.stalled_turns = 0; }
         // 3. timeouts of blocked clients
